@@ -145,15 +145,33 @@ class Ctx:
                 key = (v["inv"], v["sig"])
                 seen.setdefault(key, []).append(v)
             n = 0
+            # replays of earlier runs of this property and tier are superseded (disk space is limited)
+            pdir = os.path.join(REPLAYS, self.pid)
+            if os.path.isdir(pdir):
+                for d in os.listdir(pdir):
+                    if d.startswith(self.tier + "_"):
+                        shutil.rmtree(os.path.join(pdir, d), ignore_errors=True)
             for (inv, sig), vs in sorted(seen.items()):
                 n += 1
                 rdir = os.path.join(REPLAYS, self.pid, "%s_%03d" % (self.tier, n))
                 shutil.rmtree(rdir, ignore_errors=True)
                 os.makedirs(rdir)
                 for f in vs[0]["files"]:
-                    if f and os.path.exists(f):
+                    if f and os.path.exists(f) and n <= 40:
                         try:
-                            shutil.copy(f, rdir)
+                            if os.path.getsize(f) < (1 << 20):
+                                shutil.copy(f, rdir)
+                            else:
+                                # large trace: the 400 lines up to the violating line (the events of its case / family)
+                                m = re.search(r"line (\d+) of", vs[0]["detail"] or "")
+                                ln = int(m.group(1)) if m else 1
+                                with open(f) as fi, open(os.path.join(rdir, os.path.basename(f) + ".excerpt"), "w") as fo:
+                                    fo.write("# lines %d..%d of %s\n" % (max(1, ln - 400), ln + 5, f))
+                                    for i, line in enumerate(fi, 1):
+                                        if i > ln + 5:
+                                            break
+                                        if i >= ln - 400:
+                                            fo.write(line)
                         except OSError:
                             pass
                 with open(os.path.join(rdir, "violation.json"), "w") as fh:
